@@ -10,6 +10,8 @@ pub(crate) trait BindScope: fmt::Debug + NotObserver {
     fn is_valid(&self) -> bool;
     fn is_necessary(&self) -> bool;
     fn height(&self) -> i32;
+    /// the scope the bind itself was created in
+    fn outer_scope(&self) -> Scope;
     fn add_node(&self, node: WeakNode);
     #[cfg(cormacrelf_incremental_rs_verif)]
     fn verif_height(&self) -> Option<i32>;
@@ -50,6 +52,18 @@ impl Scope {
             Self::Top => 0,
             // A deallocated bind can never run again: the scope behaves like the top level.
             Self::Bind(weak) => weak.upgrade().map_or(0, |strong| strong.height()),
+        }
+    }
+    /// Like [Scope::height], but also looks at the binds enclosing this one. A bind that is not
+    /// necessary has no height of its own, yet a bind further out may be necessary and about to
+    /// invalidate everything created inside it, including nodes of this scope that are still in
+    /// use. While every bind on the way out is necessary this equals [Scope::height].
+    pub(crate) fn deep_height(&self) -> i32 {
+        match self {
+            Self::Top => 0,
+            Self::Bind(weak) => weak.upgrade().map_or(0, |strong| {
+                strong.height().max(strong.outer_scope().deep_height())
+            }),
         }
     }
     pub(crate) fn is_valid(&self) -> bool {
